@@ -94,9 +94,9 @@ def run(ctx):
         if fx.tag != "fn" or fx.path.outcome[0] != "return":
             continue
         n += 1
-        forget = [e for e in fx.effects if e.kind == "RETAIN" and e.lst == "AB" and ktx.Analysis._retain_removes_key(e) == k]
+        forget = ktloops.forget_from_ab(K, np_, fx, k)
         look = [i for i, e in enumerate(fx.path.events) if e.kind == "call" and method_name(e.a) == "get" and "HashMap" in e.a]
-        ck.ob("C08-R1", NP, "pressed-key-forgotten-from-mapped_absorbed_keys-before-any-lookup", len(forget) == 1 and (not look or forget[0].pos < look[0]))
+        ck.ob("C08-R1", NP, "pressed-key-forgotten-from-mapped_absorbed_keys-before-any-lookup", len(forget) == 1 and (not look or forget[0] < look[0]))
     ck.floor("C08-R1", "newly_press-return-paths", n, 1)
     # ---------------- R2 absorbed argument
     # the local passed as 3rd argument of is_supported
@@ -248,7 +248,18 @@ def run(ctx):
                         nonempty = any((a == T("empty", T("field", m, "absorbing")) and v is False) or
                                        (isinstance(a, tuple) and a[0] == "binop" and a[1] == "Gt" and a[2] == T("len", T("field", m, "absorbing")) and v is True) for a, v in g)
                         ck.ob("C08-R4", ANM, "absorbing_trigger:=pressed-key-iff-the-mapping-absorbs-something", vok and nonempty, site=e.ev.span)
-    ck.ob("C08-R4", "-", "mapped_absorbed_keys-writers", {kk: sorted("DRAIN" if x == "OTHERMUT:take" else x for x in v) for kk, v in ab_w.items()} == {ANM: ["ADD"], NP: ["RETAIN"], RAK: ["DRAIN"]},
+    writers = {kk: sorted("DRAIN" if x == "OTHERMUT:take" else x for x in v) for kk, v in ab_w.items()}
+    # two forms each for the producer and for the forgetting consumer, but not the loose form of both at once:
+    #   ADD under `!contains` (duplicate-free list) goes with RETAIN or with remove-the-first-match (DEL, recognised by
+    #   ktloops.forget_from_ab on every return path -- C08-R1); APPEND of the mapping's whole absorbing list (duplicates
+    #   possible) only with RETAIN, which drops every copy
+    whole = [e for b in K.fn_bodies for fx in K.path_fx(b) for e in fx.effects if e.lst == "AB" and e.kind == "APPEND"]
+    whole_ok = all(mir.strip(e.key) == T("field", m, "absorbing") for e in whole)
+    if writers.get(ANM) == ["APPEND"] and whole_ok and writers.get(NP) == ["RETAIN"]:
+        writers[ANM] = ["ADD"]
+    if writers.get(NP) == ["DEL"] and writers.get(ANM) == ["ADD"] and ktloops.ab_duplicate_free(K):
+        writers[NP] = ["RETAIN"]
+    ck.ob("C08-R4", "-", "mapped_absorbed_keys-writers", writers == {ANM: ["ADD"], NP: ["RETAIN"], RAK: ["DRAIN"]},
           detail=str({kk[len(MOD):]: sorted(v) for kk, v in ab_w.items()}))
     ck.ob("C08-R4", "-", "absorbing_trigger-writers", set(at_w) == {ANM, RAK}, detail=str({kk[len(MOD):]: sorted(v) for kk, v in at_w.items()}))
     # every firing of an absorbing mapping (re)writes the trigger, whatever it held before
